@@ -1,6 +1,7 @@
 package checks
 
 import (
+	"bytes"
 	"fmt"
 	"reflect"
 	"testing"
@@ -432,6 +433,84 @@ var c11CompKind = registerKind("c11comp", func(in c11CompIn) string {
 	return ""
 })
 
+// strings that are not valid UTF-8: validation (non-empty text) accepts them,
+// so the setters must
+var nonUTF8Texts = []string{"\xff", "a\xffb", "\xc3", "\x80", "\xed\xa0\x80", "https://psa-verifier.org/\xc3\x28", "\xf8\x88\x80\x80\x80"}
+
+type c11CopyIn struct {
+	Field    string `json:"field"`
+	How      string `json:"how_the_second_component_was_made"`
+	InClaims string `json:"both_held_by_claims_of_profile,omitempty"`
+}
+
+// c11CopyKind: component b shares every field pointer with component a; one
+// setter call on b must leave a (and, when both are held by a claims-set,
+// a's part of the encodings) exactly as it was.
+var c11CopyKind = registerKind("c11copy", func(in c11CopyIn) string {
+	val, sig := bytes.Repeat([]byte{0xaa}, 32), bytes.Repeat([]byte{0xbb}, 32)
+	ty, ver, desc := "BL", "1.0", "sha-256"
+	a := &psatoken.SwComponent{MeasurementValue: &val, SignerID: &sig, MeasurementType: &ty, Version: &ver, MeasurementDesc: &desc}
+	var b *psatoken.SwComponent
+	if in.How == "struct-copy" {
+		cp := *a
+		b = &cp
+	} else {
+		b = &psatoken.SwComponent{MeasurementValue: &val, SignerID: &sig, MeasurementType: &ty, Version: &ver, MeasurementDesc: &desc}
+	}
+	var c psatoken.IClaims
+	if in.InClaims != "" {
+		p := P1
+		if in.InClaims == "P2" {
+			p = P2
+		}
+		m := baseValid(p, 0)
+		var err error
+		if c, err = m.BuildSetters(); err != nil {
+			return "VERIF-INFRA: " + err.Error()
+		}
+		if err := c.SetSoftwareComponents([]psatoken.ISwComponent{a, b}); err != nil {
+			return "two equal valid components refused: " + err.Error()
+		}
+	}
+	beforeA := obsComp(a)
+	var err error
+	switch in.Field {
+	case "value":
+		err = b.SetMeasurementValue(bytes.Repeat([]byte{0x11}, 48))
+	case "signer":
+		err = b.SetSignerID(bytes.Repeat([]byte{0x22}, 64))
+	case "type":
+		err = b.SetMeasurementType("PRoT")
+	case "version":
+		err = b.SetVersion("2.0")
+	default:
+		err = b.SetMeasurementDesc("sha-384")
+	}
+	if err != nil {
+		return "valid component value refused: " + err.Error()
+	}
+	if after := obsComp(a); after != beforeA {
+		return fmt.Sprintf("a setter call on one component changed ANOTHER component (they shared a field pointer, %s): %s -> %s", in.How, beforeA, after)
+	}
+	if c != nil {
+		scs, gerr := c.GetSoftwareComponents()
+		if gerr != nil || len(scs) != 2 {
+			return fmt.Sprintf("claims-set no longer returns its two components: %v", gerr)
+		}
+		if got := obsComp(scs[0].(*psatoken.SwComponent)); got != beforeA {
+			return fmt.Sprintf("the claims-set's first component changed after a setter call on the second: %s -> %s", beforeA, got)
+		}
+		out, eerr := psatoken.EncodeClaimsToCBOR(c)
+		if eerr != nil {
+			return "claims-set with two valid components does not encode: " + eerr.Error()
+		}
+		if !bytes.Contains(out, val) || !bytes.Contains(out, sig) {
+			return fmt.Sprintf("the encoding no longer contains the first component's measurement value / signer id: %x", out)
+		}
+	}
+	return ""
+})
+
 // c11CompText: the three optional text setters of the component.
 var c11CompTextKind = registerKind("c11comptext", func(in struct {
 	Field string  `json:"field"`
@@ -528,7 +607,7 @@ func TestC11_Sweep(t *testing.T) {
 					try(v, fmt.Sprintf("samebytelen-nonascii-digits/%d", i))
 				}
 			}
-			for _, s := range []string{"", " ", "x", "https://psa-verifier.org"} {
+			for _, s := range append(append([]string{"", " ", "x", "https://psa-verifier.org"}, interestingTexts...), nonUTF8Texts...) {
 				run(c11SweepIn{p, filled, setterOp{Claim: CVSI, Text: s}}, fmt.Sprintf("%svsi/%q", pre, s))
 			}
 			for _, v := range []int32{0, 1, -1, 2147483647, -2147483648} {
@@ -546,9 +625,24 @@ func TestC11_Sweep(t *testing.T) {
 			}
 		}
 	}
+	// two components that share their field pointers (the second is a struct
+	// copy of the first, or both were built around the same &value): a
+	// setter call on one changes nothing on the other
+	for _, f := range []string{"value", "signer", "type", "version", "desc"} {
+		for _, how := range []string{"struct-copy", "shared-literal"} {
+			for _, inClaims := range []string{"", "P1", "P2"} {
+				in := c11CopyIn{Field: f, How: how, InClaims: inClaims}
+				msg := c11CopyKind(in)
+				st.Case(fmt.Sprintf("compcopy/%s/%s/%s", f, how, inClaims), "component-copy")
+				if msg != "" {
+					reportCase(t, "C11", "c11copy", in, msg)
+				}
+			}
+		}
+	}
 	prevs := []*string{nil, sp("old"), sp("")}
 	for _, f := range []string{"type", "version", "desc"} {
-		for _, txt := range append([]string{"", " ", "x"}, interestingTexts...) {
+		for _, txt := range append(append([]string{"", " ", "x"}, interestingTexts...), nonUTF8Texts...) {
 			for pi, prev := range prevs {
 				in := struct {
 					Field string  `json:"field"`
